@@ -180,6 +180,7 @@ type e2eCase struct {
 	elems   []e2eElem
 	records [][][]byte // records -> fields -> raw
 	name    string
+	single  bool // send all records in one data set (record-count boundary cases)
 }
 
 func (c e2eCase) template(id uint16) refcodec.Template {
@@ -234,6 +235,9 @@ func (c e2eCase) dataSet(id uint16, recs [][][]byte, variant int) entities.Set {
 
 // groups splits the case's records into data sets of 1, 2, 3, ... records.
 func (c e2eCase) groups() [][][][]byte {
+	if c.single {
+		return [][][][]byte{c.records}
+	}
 	var out [][][][]byte
 	i, n := 0, 1
 	for i < len(c.records) {
@@ -334,7 +338,16 @@ func e2eCases(tier string, maxMsg int, fullRegistry bool) []e2eCase {
 			for r := range recs {
 				recs[r] = [][]byte{vals[r%len(vals)]}
 			}
-			cases = append(cases, e2eCase{elems: []e2eElem{e}, records: recs, name: fmt.Sprintf("%s x%d records (fit=%d)", e2eName([]e2eElem{e}), n, fit)})
+			cases = append(cases, e2eCase{elems: []e2eElem{e}, records: recs, single: true, name: fmt.Sprintf("%s x%d records in one set (fit=%d)", e2eName([]e2eElem{e}), n, fit)})
+		}
+		// and one set just beyond 1024 records (a scatter-gather write cannot carry it in one call)
+		if i == 0 {
+			vals := e2eValues(e.ie, false)
+			recs := make([][][]byte, 1100)
+			for r := range recs {
+				recs[r] = [][]byte{vals[r%len(vals)]}
+			}
+			cases = append(cases, e2eCase{elems: []e2eElem{e}, records: recs, single: true, name: fmt.Sprintf("%s x1100 records in one set", e2eName([]e2eElem{e}))})
 		}
 	}
 	if fullRegistry {
